@@ -74,8 +74,9 @@ RegularPad(b, fixed) == (~PBit(b)) \/ (PadCount(b) % 4 = 0 /\ PadCount(b) > 0 /\
 
 \* C13: add RFC 3550 padding of n bytes to an unpadded packet
 Pad(b, n) ==
-    LET words == U16At(b, 3) + n \div 4
-    IN  << b[1] + 32, b[2] >> \o BE16(words) \o SubSeq(b, 5, Len(b)) \o PadTrailer(n)
+    IF Len(b) < 4 \/ PBit(b) THEN b        \* not a packet / already padded: left alone
+    ELSE LET words == (U16At(b, 3) + n \div 4) % 65536
+         IN  << b[1] + 32, b[2] >> \o BE16(words) \o SubSeq(b, 5, Len(b)) \o PadTrailer(n)
 
 -----------------------------------------------------------------------------
 (* Parse errors (C18).  An error is a record [e |-> name, f |-> <<payload ints>>]. *)
